@@ -263,3 +263,35 @@ Proof.
       apply reads_fit_app. split; [constructor; [cbn; lia|exact Hw]|apply IH].
     + destruct (N.eqb_spec e EINTR); cbn [u_trace u_cons]; [constructor; [cbn; lia|apply IH]|repeat constructor; cbn; lia].
 Qed.
+
+(* what is WRITTEN from the buffer (`buf[..rlen]`, rlen being what the read returned) fits too, as long as the kernel
+   honours read(2)'s contract (never more than asked) *)
+Definition writes_fit (cap : N) (t : utrace) : Prop :=
+  Forall (fun e => match fst e with UWrite _ _ n => n <= cap | URead _ _ => True end) t.
+
+Lemma writes_fit_app cap t1 t2 : writes_fit cap (t1 ++ t2) <-> writes_fit cap t1 /\ writes_fit cap t2.
+Proof. unfold writes_fit. apply Forall_app. Qed.
+
+Lemma writes_fit_mono cap cap' t : cap <= cap' -> writes_fit cap t -> writes_fit cap' t.
+Proof.
+  intros Hc H. unfold writes_fit in *. eapply Forall_impl; [|exact H].
+  intros [[o n|s o n] a]; cbn; [trivial|lia].
+Qed.
+
+Lemma copy_range_uspace_writes_fit fuel : forall nbytes off w ans,
+  uans_bounded (u_trace (copy_range_uspace fuel nbytes off w ans)) ->
+  writes_fit nbytes (u_trace (copy_range_uspace fuel nbytes off w ans)).
+Proof.
+  induction fuel as [|f IH]; intros nbytes off w ans; cbn [copy_range_uspace].
+  - destruct (N.leb_spec nbytes w); cbn; constructor.
+  - destruct (N.leb_spec nbytes w); [cbn; constructor|].
+    destruct ans as [|[rlen|e] rest]; cbn [u_trace]; [constructor| |repeat constructor].
+    destruct (N.eqb_spec rlen 0); cbn [u_trace]; [repeat constructor|].
+    destruct rest as [|[wlen|e] rest']; cbn [u_trace]; [repeat constructor| |].
+    + destruct (N.ltb_spec wlen rlen); cbn [u_trace u_app].
+      * intros Hb. inversion Hb as [|? ? Hk _]; subst. cbn in Hk. repeat constructor; cbn; lia.
+      * intros Hb. apply uans_bounded_app in Hb. destruct Hb as [Hb1 Hb2].
+        inversion Hb1 as [|? ? Hk _]; subst. cbn in Hk.
+        apply writes_fit_app. split; [repeat constructor; cbn; lia|apply IH; exact Hb2].
+    + intros Hb. inversion Hb as [|? ? Hk _]; subst. cbn in Hk. repeat constructor; cbn; lia.
+Qed.
